@@ -126,6 +126,8 @@ def case_query(mon: Monitor, rng: random.Random) -> None:
         xs, ys = np.asarray(dense.exterior.coords).T
         lo, la = gen.transformer(gb.crs.proj.to_wkt(), "EPSG:4326").transform(xs, ys)
         bx, by = gen.transformer("EPSG:4326", gb.crs.proj.to_wkt()).transform(lo, la)
+        if not (np.isfinite(lo).all() and np.isfinite(la).all() and np.isfinite(bx).all() and np.isfinite(by).all()):
+            return mon.skip("tiles", "query leaves the valid range of the raster's projection")
         q_native = sg.Polygon(list(zip(bx, by)))
         qpoly_h = sg.Polygon(list(zip(lo, la)))
         if not (q_native.is_valid and qpoly_h.is_valid):
@@ -231,12 +233,94 @@ def case_graph(mon: Monitor, rng: random.Random) -> None:
     mon.obs["edges_listed_total"] += nlisted
 
 
-CASES = {"query": case_query, "graph": case_graph}
+GLOBAL_SOURCES = [
+    # (crs, affine args, shape): whole-world or hemisphere mosaics, far larger than any regional projection can represent
+    ("EPSG:4326", (0.5, 0, -180, 0, -0.5, 90), (360, 720)),
+    ("EPSG:4326", (1.0, 0, -180, 0, -1.0, 85), (170, 360)),
+    ("EPSG:4326", (0.5, 0, 0, 0, -0.5, 0), (180, 360)),  # south-east quarter
+    ("EPSG:3857", (80000, 0, -20000000, 0, -80000, 15000000), (375, 500)),  # strictly inside the projections' own limits
+    ("EPSG:6933", (60000, 0, -17220000, 0, -60000, 7140000), (238, 574)),  # > 2 px inside the limits (see K5)
+    # SMAP / EASE-Grid 2.0 global 36 km grid (M36, 964 x 406 cells): fills the projection's valid range exactly (known finding K5)
+    ("EPSG:6933", (36032.220840584, 0, -17367530.45, 0, -36032.220840584, 7314540.83), (406, 964)),
+]
+
+
+def _buffer_leaves_projection(src, npx: float = 2.0) -> bool:
+    """True when the source outline grown by npx pixels has no finite image in EPSG:4326 (oracle's transformer) although the outline itself has."""
+    H, W = src.shape
+    tr = gen.transformer(src.crs.proj.to_wkt(), "EPSG:4326")
+
+    def finite(b):
+        R = ring_px(-b, -b, W + b, H + b, 16)
+        Wd = (pairs.M3(src.affine) @ np.c_[R, np.ones(len(R))].T)[:2]
+        x, y = tr.transform(Wd[0], Wd[1])
+        return bool(np.isfinite(x).all() and np.isfinite(y).all())
+
+    return finite(0.0) and not finite(npx)
+
+
+def case_graph_global(mon: Monitor, rng: random.Random) -> None:
+    """Dependency graph of a regional destination (UTM / Albers / LAEA / national grid tile) on a global source mosaic: the ordinary
+    'cut my tile out of the global product' request.  The oracle goes the well-defined way round: destination tile outlines are densified
+    and taken to the *source* CRS with the oracle's own transformer, then intersected with the source tile rectangles there."""
+    import shapely.geometry as sg
+    from odc.geo.geobox import GeoBox
+
+    scrs, aff, sshape = rng.choice(GLOBAL_SOURCES)
+    src = GeoBox(sshape, Affine(*aff), scrs)
+    entry = rng.choice([e for e in gen.CRS_WINDOWS if e[0] not in gen.GLOBAL_CRS])
+    fam = rng.choice(["north-up", "north-up", "rotated", "mirror-y"])
+    dst, _w = gen.window_geobox(rng, entry, npix=(rng.randint(8, 40), rng.randint(8, 40)), extent_deg=rng.choice([1.0, 2.0, 4.0]), fam=fam)
+    NY, NX = src.shape
+    t = (rng.choice([30, 45, 60, 90]), rng.choice([40, 60, 90, 120]))
+    from odc.geo.geobox import GeoboxTiles
+
+    st = GeoboxTiles(src, t)
+    soy = [min(i * t[0], NY) for i in range(-(-NY // t[0]) + 1)]
+    sox = [min(i * t[1], NX) for i in range(-(-NX // t[1]) + 1)]
+    dt, doy, dox, dhow = make_tiling(rng, dst)
+    desc = {"src": gen.gbox_desc(src), "src_tiles": t, "dst": gen.gbox_desc(dst), "dst_tiles": dhow, "kind": "cross|global-source"}
+    deps, e = call(dt.grid_intersect, st)
+    if e is not None:
+        k5 = type(e).__name__ == "GEOSException" and "closed linestring" in str(e) and _buffer_leaves_projection(src)
+        return mon.fail("GeoboxTiles.grid_intersect", {**desc, "exc": e, "source_outline_plus_2px_leaves_its_projection": k5},
+                        key="footprint-buffer-leaves-projection" if k5 else "grid-intersect-raises", cls="cross|global-source")
+    tr = gen.transformer(dst.crs.proj.to_wkt(), src.crs.proj.to_wkt())
+    Minv = np.linalg.inv(pairs.M3(src.affine))
+    missing, nedge = [], 0
+    for r, c in itertools.product(range(len(doy) - 1), range(len(dox) - 1)):
+        R = ring_px(dox[c], doy[r], dox[c + 1], doy[r + 1], 33)
+        W = (pairs.M3(dst.affine) @ np.c_[R, np.ones(len(R))].T)[:2]
+        x, y = tr.transform(W[0], W[1])
+        if not (np.isfinite(x).all() and np.isfinite(y).all()):
+            continue
+        P = (Minv @ np.vstack([x, y, np.ones(len(x))]))[:2]  # destination tile outline in source pixel coordinates
+        dp = sg.Polygon(P.T)
+        if not dp.is_valid or dp.area == 0:
+            continue
+        dst_px = dp.area / max(1, (dox[c + 1] - dox[c]) * (doy[r + 1] - doy[r]))  # one destination pixel, in source pixels^2
+        for sr, sc in itertools.product(range(len(soy) - 1), range(len(sox) - 1)):
+            sp = sg.box(sox[sc], soy[sr], sox[sc + 1], soy[sr + 1])
+            a = dp.intersection(sp).area
+            if a > max(0.02 * min(dp.area, sp.area), 4 * dst_px):
+                nedge += 1
+                if (sr, sc) not in [tuple(s_) for s_ in deps.get((r, c), [])]:
+                    missing.append(((r, c), (sr, sc), a / min(dp.area, sp.area)))
+    nlisted = sum(len(v) for v in deps.values())
+    if nedge == 0:
+        return mon.skip("GeoboxTiles.grid_intersect", "global source: no required edge (tiny destination)")
+    mon.check(not missing, "GeoboxTiles.grid_intersect", lambda: {**desc, "missing_edges": missing[:5], "edges_listed": nlisted, "edges_required": nedge}, key="grid-intersect-missing-edge",
+              cls="cross|global-source|" + entry[0], sig=hsig("gg", scrs, sshape, t, gen.aff6(dst.affine), tuple(dst.shape), repr(dhow)), sample={**desc, "edges_listed": nlisted, "edges_required": nedge})
+    mon.obs["edges_required_total"] += nedge
+    mon.obs["edges_listed_total"] += nlisted
+
+
+CASES = {"query": case_query, "graph": case_graph, "graph-global": case_graph_global}
 
 
 def run(mon: Monitor, tier: str, seed: int, shard: int, nshards: int) -> None:
     rng = random.Random(seed * 1000 + shard + 12)
-    counts = {"query": 900, "graph": 500} if tier == "quick" else {"query": 15000, "graph": 8000}
+    counts = {"query": 900, "graph": 500, "graph-global": 60} if tier == "quick" else {"query": 15000, "graph": 8000, "graph-global": 1200}
     for kind, n in counts.items():
         for _ in range(n):
             rs = rng.getrandbits(48)
@@ -251,6 +335,8 @@ def run(mon: Monitor, tier: str, seed: int, shard: int, nshards: int) -> None:
                   ("GeoboxTiles.tiles|geometry|same-crs|larger", 10), ("GeoboxTiles.tiles|geometry|same-crs|touch", 5)]:
         mon.floor(pt, n)
     mon.floor("GeoboxTiles.grid_intersect|same|far|disjoint", 10)
+    for c_ in ("EPSG:32633", "EPSG:3577", "EPSG:3035"):
+        mon.floor("GeoboxTiles.grid_intersect|cross|global-source|" + c_, 2)
     mon.floor("GeoboxTiles.grid_intersect|cross|far|disjoint", 5)
     mon.floor("GeoboxTiles.grid_intersect|cross|shift|overlap", 5)
     mon.floor("GeoboxTiles.grid_intersect|same|rot|overlap", 5)
